@@ -11,6 +11,11 @@ mod server_world;
 #[cfg(feature = "verif_hooks")]
 pub mod verif_hooks {
     pub use super::replication_messages::mutations::verif::{can_pack, mutations_split};
+
+    /// Wrappers for [`ClientVisibility`](super::client_visibility::ClientVisibility).
+    pub mod visibility {
+        pub use crate::server::client_visibility::verif::*;
+    }
 }
 
 use core::{ops::Range, time::Duration};
